@@ -37,6 +37,16 @@ CHECKS = {
   text="Model checking by trace validation: programs are grouped by their text with input values and the ignore_errors switch abstracted; all runs of a group (operand values over the window, valid/invalid under ignore_errors, guard and condition values 0/1, every secret index / exponent / shift count) are zipped against a reference run and TLC compares, per call, the kinds and order of new variables, every constraint with coefficients, and the result wire expressions.",
   note="Bounded to the generated program families (~20k runs quick) in small prime fields; canonical forms come from the independent recorder LC class.",
   design="5/C06"),
+ "C07": dict(
+  technique="TLC trace validation of zipped unguarded / true-guard / false-guard runs (TraceGuarded.tla) + TraceCore!Inv_Sat on false-guard runs + Soundness.tla search on lazily evaluated selections and on assertions under a true guard",
+  text="Model checking by trace validation: every body (operators, assertions, conversions, selection, array reads, fixed point; value window incl. values invalid for the body; seeded multi-call bodies) is run unguarded, under guard 1 and under guard 0 with the condition typed as secret integer, secret boolean and comparison result, nesting depth 2; TLC checks no value-caused raise and full-length execution under the false guard, constraint satisfaction of the false-guard witness, identical outcomes/exception classes/values under the true guard, uniqueness of the selected value when the untaken branch's wires are adversarial, and enforcement of assertions under a true guard.",
+  note="Small prime fields (67/257; 13 for the adversarial search of untaken branches). Known finding: division by a zero-valued secret raises under a false guard.",
+  design="5/C07"),
+ "C08": dict(
+  technique="TLC model checking of Guard.tla (mechanism + contract: NestConj, IgnConj, OneBound, TopLevelClean, RestoreOnEnd) + replay of every TLC-generated history into the code + trace validation against Guard.tla (TraceGuard.tla)",
+  text="Model checking with conformance: Guard.tla models add_guard/restore_guard/guarded and exception unwinding through guarded regions and user try blocks; TLC checks the contract on it exhaustively, prints every complete history (enter 0/1, leave, raise at any point, rejected entry, try/catch, ignore switches; length<=6, depth<=3 quick), each history is rendered as a program and run on the real code, and the recorded guard triple (values, flags and object identities) is validated step by step against the spec's actions; restore-on-every-exit-path and conjunction nesting are checked on what the code reported.",
+  note="Histories bounded by length/depth (8/4 thorough + simulation to length 14); mismatch in parts of the triple the property does not mention is reported as MODEL-DRIFT, not a violation.",
+  design="5/C08"),
 }
 
 NOT_YET = "check not built yet in this round (planned, see DESIGN.md section 5)"
